@@ -106,12 +106,16 @@ package workflow
 //@ func (*loopState).markStageNodeUnresolvable
 //@   requires wfloop(l) && held(l.lock)
 //@   modifies ghost nodestatus
+//@   ensures [only-nodes-of-this-runs-graph-change] forall n any :: nodestatus(n) != old(nodestatus(n)) ==> nodedag(n) == l.dag
 //@   ensures [stage-node-no-longer-waiting] indag(l.dag, stagenode(stepID, stageID)) ==> nodestatus(dagnode(l.dag, stagenode(stepID, stageID))) != "waiting"
 //@   ensures [marks-only-unresolvable] forall n any :: nodestatus(n) != old(nodestatus(n)) ==> nodestatus(n) == "unresolvable" && old(nodestatus(n)) == "waiting"
 //
 //@ func (*loopState).markOutputsUnresolvable
 //@   requires wfloop(l) && held(l.lock)
 //@   modifies ghost nodestatus
+//@   ensures [only-nodes-of-this-runs-graph-change] forall n any :: nodestatus(n) != old(nodestatus(n)) ==> nodedag(n) == l.dag
+//@   loop 1 invariant forall n any :: nodestatus(n) != old(nodestatus(n)) ==> nodedag(n) == l.dag
+//@   loop 2 invariant forall n any :: nodestatus(n) != old(nodestatus(n)) ==> nodedag(n) == l.dag
 //@   ensures [other-outputs-of-the-stage-no-longer-waiting] forall i int, o string :: 0 <= i && i < len(l.lifecycles[stepID].Stages) && \
 //@        l.lifecycles[stepID].Stages[i].ID == stageID && indom(l.lifecycles[stepID].Stages[i].Outputs, o) && \
 //@        (skippedOutput == nil || o != *skippedOutput) && indag(l.dag, outnode(stepID, stageID, o)) ==> \
@@ -231,6 +235,7 @@ package workflow
 //@ func (*loopState).onStageComplete
 //@   requires wfloop(l) && nolocks() && wg != nil && wfitems(l.dag) && stepsKnown(l) && known(l, stepID)
 //@   requires [output-comes-with-its-data] previousStage != nil && previousStageOutputID != nil ==> previousStageOutput != nil
+//@   ensures [only-nodes-of-this-runs-graph-change] forall n any :: nodestatus(n) != old(nodestatus(n)) ==> nodedag(n) == l.dag
 //@   ensures nolocks()
 //@   site call GetNodeByID#1 snapshot locked
 //@   site call notifySteps#1 assert [stage-node-resolved-before-dependants-are-notified] nodestatus(dagnode(l.dag, stagenode(stepID, *previousStage))) == "resolved"
@@ -247,6 +252,9 @@ package workflow
 //@ func (*loopState).notifySteps
 //@   requires wfloop(l) && held(l.lock) && lockinv(l) && wfitems(l.dag) && stepsKnown(l)
 //@   modifies l.outputDone, map l.waitingOutputs, ghost nodestatus, chan l.outputDataChannel, chan l.recentErrors
+//@   ensures [only-nodes-of-this-runs-graph-change] forall n any :: nodestatus(n) != old(nodestatus(n)) ==> nodedag(n) == l.dag
+//@   loop 1 invariant forall n any :: nodestatus(n) != old(nodestatus(n)) ==> nodedag(n) == l.dag
+//@   loop 2 invariant forall n any :: nodestatus(n) != old(nodestatus(n)) ==> nodedag(n) == l.dag
 //@   ensures lockinv(l)
 //@   loop 1 invariant lockinv(l) && held(l.lock) && (forall k string :: indom(readyNodes, k) ==> indag(l.dag, k))
 //@   site call ProvideStageInput#1 assert [a-node-whose-dependency-failed-gets-no-input] readyNodes[nodeID] != "unresolvable"
